@@ -1596,6 +1596,285 @@ def oracle_linen_exposes(variables, prefix, ref):
 
 
 # ------------------------------------------------------------------------------------------------
+# part 4: metadata boxes under Linen's lifted transforms (add_axis on the way out, remove_axis on the way in)
+# ------------------------------------------------------------------------------------------------
+
+AXIS = 'layers'
+
+
+def expected_names(names, axis):
+  k = axis if axis >= 0 else axis + len(names) + 1
+  out = list(names)
+  out.insert(k, AXIS)
+  return tuple(out)
+
+
+def box_names(b):
+  """The per-axis annotation of a Linen leaf: names of a Partitioned box, `sharding` of an NNXMeta box,
+  None for an unannotated leaf."""
+  if isinstance(b, bv.NNXMeta):
+    return b.metadata.get('sharding')
+  if isinstance(b, meta.Partitioned):
+    return b.names
+  return None
+
+
+def check_axis_boxes(ctx, drv):
+  """Every box kind x annotation (the empty tuple of a scalar included) x every index a transform can pass."""
+  params = {nn.PARTITION_NAME: AXIS}
+  reqs, recs = [], []
+  for names in [(), (None,), ('a',), ('a', None), ('in', 'out'), (None, None)]:
+    rank = len(names)
+    val = jnp.zeros((2,) * rank, jnp.int32)
+    boxes = [
+      ('part', meta.Partitioned(val, names=names)),
+      ('logical', nn.LogicallyPartitioned(val, names=names)),
+      ('nnxmeta', bv.NNXMeta(nnx.Param, val, {'sharding': names})),
+      ('nnxmeta+tag', bv.NNXMeta(nnx.Param, val, {'tag': 't', 'sharding': names})),
+      ('nnxmeta-unannotated', bv.NNXMeta(nnx.Param, val, {'tag': 't'})),
+    ]
+    for kind, box in boxes:
+      for index in range(-(rank + 1), rank + 1):
+        case = {'kind': 'axis-box', 'box': kind, 'names': list(names), 'index': index}
+        ctx.case(case)
+        ctx.count('axis_box_kind', kind)
+        ctx.count('axis_box_rank', rank)
+        r = call(lambda: box.add_axis(index, params))
+        if r[0] != 'ok':
+          ctx.violation('axis-add-raises', f'{kind}{names}.add_axis({index}) raised {r[1]}', case)
+          continue
+        got = box_names(r[1])
+        if kind == 'nnxmeta-unannotated':
+          if r[1].metadata != box.metadata:
+            ctx.violation('axis-unannotated-changed', f'add_axis changed the metadata of a Variable without sharding annotation: {r[1].metadata}', case)
+          continue
+        want = expected_names(names, index)
+        if got is None or tuple(got) != want:
+          ctx.violation('axis-names-misaligned' + ('-empty-annotation' if rank == 0 else ''), f'{kind} with annotation {names}: add_axis({index}) gives {got}, one name per axis of the stacked value would be {want}', case)
+          continue
+        b = call(lambda: r[1].remove_axis(index, params))
+        if b[0] != 'ok' or tuple(box_names(b[1])) != names or snapshot_vars({'b': b[1]}) != snapshot_vars({'b': box}):
+          ctx.violation('axis-remove-add-not-identity', f'{kind}{names}: remove_axis({index}) after add_axis({index}) gives {b[1] if b[0] != "ok" else box_names(b[1])}', case)
+          continue
+        if kind.startswith('nnxmeta'):
+          md = [[k, mv_json(k, v)] for k, v in box.metadata.items()]
+          reqs.append(('meta_add_axis', [md, index, AXIS]))
+          recs.append((case, sorted([[k, mv_json(k, v)] for k, v in r[1].metadata.items()], key=lambda e: e[0])))
+  outs = drv.run(reqs)
+  for (case, want), m in zip(recs, outs):
+    if m[0] != 'ok' or sorted(m[1], key=lambda e: e[0]) != want:
+      ctx.disagreements_checked += 1
+      ctx.violation('axis-model-mismatch', f'model {m} vs implementation {want}', case, concrete=False)
+
+
+class NAx(nnx.Module):
+  """spec: tuple of (name, rank, style, names) with style in sharding / none / linen-part / logical; a
+  rank-2 kernel `w` and a rank-0 BatchStat `s` (annotated with the empty tuple) are always there."""
+
+  def __init__(self, spec, *, rngs):
+    self.spec = spec
+    self.w = nnx.Param(iw((2, 2), 1), sharding=('in', 'out'))
+    self.s = nnx.BatchStat(jnp.asarray(0, jnp.int32), sharding=())
+    for i, (name, rank, style, names) in enumerate(spec):
+      val = iw((2,) * rank, i + 2) + 3
+      if style == 'none':
+        kw = {}
+      elif style == 'sharding':
+        kw = {'sharding': names}
+      elif style == 'linen-part':
+        kw = {'sharding': names, 'mesh': None, 'linen_meta_type': meta.Partitioned}
+      else:
+        kw = {'sharding': names, 'mesh': None, 'sharding_rules': None, 'linen_meta_type': nn.LogicallyPartitioned}
+      setattr(self, name, nnx.Param(val, **kw))
+
+  def __call__(self, x):
+    self.s.value = self.s.value + 1
+    y = (x @ self.w.value) % 11 + self.s.value
+    for name, _, _, _ in self.spec:
+      y = y + getattr(self, name).value
+    return y
+
+
+def gen_axspec(rng):
+  out = []
+  for i in range(rng.randrange(1, 5)):
+    rank = rng.choice([0, 0, 1, 1, 2])
+    style = rng.choice(['sharding', 'sharding', 'none', 'linen-part', 'logical'])
+    names = tuple(rng.choice([None, 'a', 'b']) for _ in range(rank))
+    out.append((f'q{i}', rank, style, names))
+  return tuple(out)
+
+
+def take(a, i, axis):
+  return np.take(np.asarray(a), i, axis=axis)
+
+
+def run_lift_case(ctx, spec, transform, axis, n, drv_reqs, drv_recs):
+  case = {'kind': 'lifted-tolinen', 'spec': [list(e[:3]) + [list(e[3])] for e in spec], 'transform': transform, 'axis': axis, 'n': n}
+  ctx.case(case)
+  ctx.count('lift_transform', f'{transform}/axis{axis}')
+  for _, rank, style, names in spec:
+    ctx.count('lift_var', f'rank{rank}/{style}')
+  mp = {nn.PARTITION_NAME: AXIS}
+  with RegistryGuard():
+    if transform == 'vmap':
+
+      class Outer(nn.Module):
+        @nn.compact
+        def __call__(self, x):
+          f = nn.vmap(bridge.ToLinen, variable_axes={'params': axis, 'batch_stats': axis, 'nnx': None}, split_rngs={'params': True}, metadata_params=mp)
+          return f(NAx, args=(spec,), name='inner')(x)
+
+      x = jnp.asarray(np.arange(n * 4, dtype=np.int32).reshape(n, 2, 2) % 5)
+      path = ('inner',)
+    else:
+
+      class Body(nn.Module):
+        @nn.compact
+        def __call__(self, c, _):
+          return bridge.ToLinen(NAx, args=(spec,), name='inner')(c), None
+
+      class Outer(nn.Module):
+        @nn.compact
+        def __call__(self, x):
+          f = nn.scan(Body, variable_axes={'params': axis, 'batch_stats': axis}, variable_broadcast='nnx', split_rngs={'params': True}, length=n, metadata_params=mp)
+          return f(name='sc')(x, None)[0]
+
+      x = jnp.asarray(np.arange(4, dtype=np.int32).reshape(2, 2) % 5)
+      path = ('sc', 'inner')
+    r = call(lambda: Outer().init_with_output(jax.random.key(0), x))
+    if r[0] != 'ok':
+      ctx.violation('lift-init-raises', f'init of ToLinen under nn.{transform} raised {r[1]}', case)
+      return
+    y0, vs = r[1]
+    vs = unfreeze(vs)
+    orig = {'w': ('sharding', ('in', 'out')), 's': ('sharding', ())}
+    orig.update({name: (style, names) for name, _, style, names in spec})
+
+    def check_boxes(variables, when):
+      for c in ('params', 'batch_stats'):
+        tree = _sub(variables.get(c, {}), path) or {}
+        for name, b in tree.items():
+          style, names = orig[name]
+          val = b.value if isinstance(b, meta.AxisMetadata) else b
+          got = box_names(b)
+          if style == 'none':
+            if got is not None:
+              return ('unannotated-variable-annotated', f'{when}: {c}/{name} had no sharding annotation, now {got}')
+            continue
+          want = expected_names(names, axis)
+          if got is None or tuple(got) != want or len(got) != np.ndim(val):
+            return ('names-misaligned' + ('-empty-annotation' if len(names) == 0 else ''), f'{when}: {c}/{name} (annotation {names}, {type(b).__name__}) has value of rank {np.ndim(val)} and annotation {got}; one name per axis with {AXIS!r} at axis {axis} is {want}')
+          if style == 'linen-part' and type(b) is not meta.Partitioned or style == 'logical' and type(b) is not nn.LogicallyPartitioned:
+            return ('box-kind-lost', f'{when}: {c}/{name} came back as {type(b).__name__}')
+      return None
+
+    err = check_boxes(vs, 'after init')
+    if err:
+      ctx.violation('lift-' + err[0], err[1], case)
+      return
+    # model: the NNXMeta boxes' metadata is the un-lifted metadata with the axis added
+    for name, (style, names) in orig.items():
+      if style == 'sharding':
+        c = 'batch_stats' if name == 's' else 'params'
+        b = _sub(vs[c], path)[name]
+        drv_reqs.append(('meta_add_axis', [[['sharding', mv_json('sharding', names)]], axis, AXIS]))
+        drv_recs.append((case, sorted([[k, mv_json(k, v)] for k, v in b.metadata.items()], key=lambda e: e[0])))
+    # reference output: the plain formula per layer on the stacked values
+    def val(c, name):
+      b = _sub(vs[c], path)[name]
+      return np.asarray(b.value if isinstance(b, meta.AxisMetadata) else b)
+
+    def layer(i, xin, s_add):
+      y = (xin @ take(val('params', 'w'), i, axis)) % 11 + (take(val('batch_stats', 's'), i, axis) + s_add)
+      for name, _, _, _ in spec:
+        y = y + take(val('params', name), i, axis)
+      return y
+
+    for mutable in (False, ['batch_stats', 'params']):
+      kw = {} if mutable is False else {'mutable': mutable}
+      a = call(lambda: Outer().apply(vs, x, **kw))
+      if a[0] != 'ok':
+        ctx.violation('lift-apply-raises', f'apply (mutable={mutable}) under nn.{transform} raised {a[1]}', case)
+        return
+      y = a[1] if mutable is False else a[1][0]
+      if transform == 'vmap':
+        want = np.stack([layer(i, np.asarray(x)[i], 1) for i in range(n)])
+      else:
+        cur = np.asarray(x)
+        for i in range(n):
+          cur = layer(i, cur, 1)
+        want = cur
+      if out_str(y) != out_str(jnp.asarray(want.astype(np.int32))):
+        ctx.violation('lift-output-differs', f'apply under nn.{transform}: {out_str(y)} vs per-layer NNX formula {out_str(jnp.asarray(want.astype(np.int32)))}', case)
+        return
+      if mutable is not False:
+        upd = unfreeze(a[1][1])
+        err = check_boxes(upd, 'in the updates of apply')
+        if err:
+          ctx.violation('lift-' + err[0], err[1], case)
+          return
+        for c in ('params',):
+          if snapshot_vars(_sub(upd[c], path)) != snapshot_vars(_sub(vs[c], path)):
+            ctx.violation('lift-roundtrip', 'params went through remove_axis / add_axis of one apply and came back different', case)
+            return
+
+
+class LAx(nn.Module):
+  """Linen twin for the other direction: Partitioned / LogicallyPartitioned params of rank 0, 1, 2."""
+
+  spec: tuple
+
+  @nn.compact
+  def __call__(self, x):
+    y = x
+    for i, (name, rank, style, names) in enumerate(self.spec):
+      init = lambda key, shape, s=i: iw(shape, s + 2) + 3  # noqa: E731
+      if style in ('sharding', 'linen-part'):
+        init = nn.with_partitioning(init, names)
+      elif style == 'logical':
+        init = nn.with_logical_partitioning(init, names)
+      y = y + self.param(name, init, (2,) * rank)
+    return y
+
+
+def run_lift_tonnx_case(ctx, spec, axis, n):
+  case = {'kind': 'lifted-tonnx', 'spec': [list(e[:3]) + [list(e[3])] for e in spec], 'axis': axis, 'n': n}
+  ctx.case(case)
+  ctx.count('lift_transform', f'tonnx-vmap/axis{axis}')
+  with RegistryGuard():
+
+    class Outer(nn.Module):
+      @nn.compact
+      def __call__(self, x):
+        f = nn.vmap(LAx, variable_axes={'params': axis}, split_rngs={'params': True}, in_axes=0, metadata_params={nn.PARTITION_NAME: AXIS})
+        return f(spec, name='inner')(x)
+
+    x = jnp.asarray(np.arange(n * 4, dtype=np.int32).reshape(n, 2, 2) % 5)
+    w = bridge.ToNNX(Outer(), rngs=nnx.Rngs(0))
+    r = call(lambda: bridge.lazy_init(w, x))
+    if r[0] != 'ok':
+      ctx.violation('lift-init-raises', f'lazy_init of ToNNX(vmapped Linen module) raised {r[1]}', case)
+      return
+    for name, rank, style, names in spec:
+      v = wrapper_attrs(w)['inner'][name]
+      got = v.get_metadata().get('sharding')
+      if style == 'none':
+        if got is not None:
+          ctx.violation('lift-unannotated-variable-annotated', f'{name}: sharding {got}', case)
+          return
+        continue
+      want = expected_names(names, axis)
+      if got is None or tuple(got) != want or len(got) != np.ndim(v.value):
+        ctx.violation('lift-names-misaligned' + ('-empty-annotation' if rank == 0 else ''), f'ToNNX Variable {name}: value rank {np.ndim(v.value)}, sharding {got}, expected {want}', case)
+        return
+    V = Outer().init(jax.random.key(0), x)
+    a = call(lambda: w(x))
+    if a[0] != 'ok' or out_str(a[1]) != out_str(Outer().apply(V, x)):
+      ctx.violation('lift-output-differs', f'ToNNX(vmapped Linen module)(x) = {a[1] if a[0] != "ok" else out_str(a[1])}', case)
+
+
+# ------------------------------------------------------------------------------------------------
 # model comparison of the queued wrapper requests
 # ------------------------------------------------------------------------------------------------
 
@@ -1770,6 +2049,23 @@ def run(ctx):
       ctx.sample({'kind': 'tolinen', 'spec': nspec, 'hist': hist, 'placement': placement})
   compare_queued(ctx, drv, reqs, metas)
 
+  # part 4
+  check_axis_boxes(ctx, drv)
+  areqs, arecs = [], []
+  for i in range(24 * k):
+    aspec = gen_axspec(rng)
+    transform = 'vmap' if i % 2 == 0 else 'scan'
+    axis = rng.choice([0, 0, -1]) if transform == 'vmap' else 0
+    n = rng.choice([2, 3])
+    acase = {'kind': 'lifted-tolinen', 'spec': [list(e[:3]) + [list(e[3])] for e in aspec], 'transform': transform, 'axis': axis, 'n': n}
+    guarded(ctx, acase, lambda: run_lift_case(ctx, aspec, transform, axis, n, areqs, arecs))
+    if i % 3 == 0:
+      guarded(ctx, dict(acase, kind='lifted-tonnx'), lambda: run_lift_tonnx_case(ctx, aspec, axis, n))
+  for (acase, want), m in zip(arecs, drv.run(areqs)):
+    if m[0] != 'ok' or sorted(m[1], key=lambda e: e[0]) != want:
+      ctx.disagreements_checked += 1
+      ctx.violation('axis-model-mismatch', f'lifted ToLinen: model {m} vs implementation {want}', acase, concrete=False)
+
   ctx.sample({'kind': 'tree-valid', 'vars': forest_json(cases[0][0], lbox_json)})
   ctx.sample({'kind': 'tree-' + cases[-1][1], 'vars': forest_json(cases[-1][0], lbox_json)})
   ctx.extra['exhaustive'] = False
@@ -1796,6 +2092,15 @@ def _run_case(ctx, drv, obj):
   elif kind == 'tolinen':
     hist = [(m, xs) for m, xs in case['hist']]
     run_tolinen_case(ctx, _spec_from_json(case['spec']), hist, case.get('placement', 'alone'), case.get('seeds', [0, 1]), reqs, metas)
+  elif kind in ('lifted-tolinen', 'lifted-tonnx'):
+    aspec = tuple((e[0], e[1], e[2], tuple(e[3])) for e in case['spec'])
+    if kind == 'lifted-tolinen':
+      a1, a2 = [], []
+      guarded(ctx, case, lambda: run_lift_case(ctx, aspec, case['transform'], case['axis'], case['n'], a1, a2))
+    else:
+      guarded(ctx, case, lambda: run_lift_tonnx_case(ctx, aspec, case['axis'], case['n']))
+  elif kind == 'axis-box':
+    check_axis_boxes(ctx, drv)
   elif kind in ('box', 'registry', 'merge') or (kind or '').startswith('tree-'):
     # generated pure-function cases are re-generated from the seed; replay the deterministic families
     check_boxes(ctx, drv, ctx.rng)
